@@ -381,7 +381,7 @@ struct OpfBox {
 };
 
 static std::string g_file;       // file of the running case (removed at the end of the case)
-struct FileGuard { std::vector<std::string> names; ~FileGuard() { for (auto& n : names) unlink(n.c_str()); } };
+struct FileGuard { std::vector<std::string> names; ~FileGuard() { if (getenv("VERIF_KEEP_FILES")) { for (auto& n : names) fprintf(stderr, "kept %s\n", n.c_str()); return; } for (auto& n : names) unlink(n.c_str()); } };
 
 // (c) OfflinePacketFilter against libpcap called directly, on every frame
 static void check_offline(int lt, const std::vector<Frame>& fr, const std::string& expr, Rng& rng, const std::string& ctx) {
@@ -456,6 +456,7 @@ static bool write_with_packet_writer(const std::string& path, int lt, Rng& rng, 
             x.clean = false;
             if (x.pdu) cnt("writer:packets-parsed-from-truncated-frame");
         }
+        if (!x.pdu && rng.chance(1, 24)) { x.pdu.reset(new RawPDU((const uint8_t*)"", 0)); x.clean = false; cnt("writer:zero-length-packet"); }      // a packet that serializes to nothing is still a record (caplen 0)
         if (!x.pdu) { x.pdu.reset(gen_top(lt, rng)); x.clean = lt != L_PPI; }
         { std::unique_ptr<PDU> c(x.pdu->clone()); x.bytes = c->serialize(); }
         // a never-serialized packet still has its initial length fields (stale); half of the packets are serialized once before
@@ -469,11 +470,13 @@ static bool write_with_packet_writer(const std::string& path, int lt, Rng& rng, 
             if (rng.chance(1, 25)) { std::unique_ptr<PacketWriter> w2(new PacketWriter(std::move(*w))); w = std::move(w2); cnt("writer:moved"); }
             Intended& x = in[i];
             timeval tv; tv.tv_sec = x.sec; tv.tv_usec = x.usec;
-            switch (rng.below(10)) {
+            // a zero-length record gets an explicit (unique) timestamp: written with 'now' it can share its microsecond with its neighbour, and the reader's
+            // frame matching is by timestamp
+            switch (x.bytes.empty() ? 9u : rng.below(10)) {
                 case 0: { x.exact_ts = false; w->write(*x.pdu); cnt("writer:write(PDU&)"); ++i; break; }
                 case 1: { x.exact_ts = false; PDU* raw = x.pdu.get(); w->write(raw); cnt("writer:write(PDU*)"); ++i; break; }
                 case 2: { x.exact_ts = false; w->write(x.pdu); cnt("writer:write(unique_ptr)"); ++i; break; }
-                case 3: { size_t m = std::min<size_t>(n - i, 1 + rng.below(5)); std::vector<PDU*> v; for (size_t k = 0; k < m; ++k) { v.push_back(in[i + k].pdu.get()); in[i + k].exact_ts = false; } w->write(v.begin(), v.end()); cnt("writer:write(range)"); i += m; break; }
+                case 3: { size_t m = std::min<size_t>(n - i, 1 + rng.below(5)); for (size_t k = 1; k < m; ++k) if (in[i + k].bytes.empty()) { m = k; break; } std::vector<PDU*> v; for (size_t k = 0; k < m; ++k) { v.push_back(in[i + k].pdu.get()); in[i + k].exact_ts = false; } w->write(v.begin(), v.end()); cnt("writer:write(range)"); i += m; break; }
                 case 4: { Packet pkt(x.pdu->clone(), Timestamp(std::chrono::microseconds((long long)x.sec * 1000000LL + x.usec)), Packet::own_pdu()); w->write(pkt); cnt("writer:write(Packet&,chrono)"); ++i; break; }
                 default: { Packet pkt(*x.pdu, Timestamp(tv)); w->write(pkt); cnt("writer:write(Packet&)"); ++i; break; }
             }
@@ -501,7 +504,7 @@ static bool write_with_packet_writer(const std::string& path, int lt, Rng& rng, 
         if (o + 16 > file.size()) return bad("writer/record-count", "file ends before record" + at);
         u32 sec = rd32(file, o), usec = rd32(file, o + 4), incl = rd32(file, o + 8), orig = rd32(file, o + 12); o += 16;
         if (incl != x.bytes.size() || o + incl > file.size()) return bad("writer/caplen", "record has incl_len=" + std::to_string(incl) + " but the packet serializes to " + std::to_string(x.bytes.size()) + " bytes" + at);
-        if (memcmp(&file[o], x.bytes.data(), incl) != 0) return bad("writer/bytes", "record bytes " + hex(&file[o], incl, 120) + " differ from the packet's serialization" + at);
+        if (incl && memcmp(&file[o], x.bytes.data(), incl) != 0) return bad("writer/bytes", "record bytes " + hex(&file[o], incl, 120) + " differ from the packet's serialization" + at);
         if (orig < incl) cnt(std::string("observation:writer-orig-len-below-incl-len") + (x.stale ? "(never-serialized packet: PacketWriter takes orig_len from advertised_size() before serialize())" : ""));   // not part of the C17 statement (bytes, order and timestamps round-trip): observation only
         else if (x.clean && !x.stale && orig != incl) return bad("writer/orig-len", "record of an API-built packet has orig_len=" + std::to_string(orig) + " != incl_len=" + std::to_string(incl) + at);
         if (x.exact_ts) { if (sec != x.sec || usec != x.usec) return bad("writer/timestamp", "record timestamp " + std::to_string(sec) + "." + std::to_string(usec) + " != packet timestamp " + std::to_string(x.sec) + "." + std::to_string(x.usec) + at); cnt("writer:timestamps-exact"); }
